@@ -773,6 +773,55 @@ def rule_populate(rep, repo):
                loc=loc, instance=cfg)
 
 
+def rule_bn_options_forwarded(rep, repo, rule="R9"):
+  """The folded layer normalises with the batch-norm options it was GIVEN:
+  each composite class is built by its own constructor with truthy and with
+  falsy-but-meaningful option values (epsilon=0, momentum=0, scale=False,
+  center=False); the inner BatchNormalization receives each option with that
+  value."""
+  from .c13 import layer_pe
+  n = 0
+  for src in ("QConv2DBatchnorm", "QDepthwiseConv2DBatchnorm"):
+    smod = [m for m in repo.modules.values() if src in m.classes]
+    if not smod:
+      raise AnalysisError("anchor-missing class %s" % src)
+    ci = smod[0].classes[src]
+    params = [p for p, _ in ci.init_params()[0]]
+    unit = "%s::%s.__init__" % (ci.module.relpath, src)
+    for label, opts in (
+        ("truthy options", dict(epsilon=F(1, 100), momentum=F(9, 10),
+                                scale=True, center=True)),
+        ("falsy options", dict(epsilon=0, momentum=0, scale=False,
+                               center=False))):
+      opts = {k: v for k, v in opts.items() if k in params}
+      kw = dict(opts, kernel_size=(3, 3))
+      if "filters" in params:
+        kw["filters"] = 8
+      cfg = "%s(%s)" % (src, ", ".join("%s=%s" % kv for kv in sorted(
+          opts.items())))
+      pe = layer_pe(repo, ci, src)
+      try:
+        layer = pe.call(pe.lookup_global(src, smod[0]), [], dict(kw))
+      except PyRaise as e:
+        rep.fail(rule, unit, "raises:" + src, "%s raises %s" % (cfg, e),
+                 loc=ci.loc(), instance=cfg)
+        continue
+      bns = [v for v in layer.attrs.values() if isinstance(v, Mock) and
+             v.name == "BatchNormalization"]
+      if len(bns) != 1:
+        continue
+      n += 1
+      rep.unit(unit)
+      got = bns[0].attrs.get("__options__", {})
+      bad = ["%s: given %r, the inner batch normalisation gets %s" % (
+          k, v, repr(got[k]) if k in got else "nothing (its own default)")
+             for k, v in sorted(opts.items())
+             if k not in got or got[k] != v or type(got[k]) is not type(v)]
+      rep.check(not bad, rule, unit, "bn-option-not-forwarded",
+                "%s: %s" % (cfg, "; ".join(bad)), loc=ci.loc(), instance=cfg)
+  return n
+
+
 def run(rep, repo, tier):
   rep.trusted.append("Keras backend convolutions are uninterpreted; "
                      "smart_cond with a python False takes the second arm")
@@ -787,6 +836,8 @@ def run(rep, repo, tier):
   rule_fold_rebuild(rep, repo)
   rep.require_instances("R8", 2)
   rule_populate(rep, repo)
+  if rule_bn_options_forwarded(rep, repo) < 4:
+    raise AnalysisError("instance-count composite layers with options")
   rep.require_instances("R7", 6)
   rep.require_instances("R1", 60)
   rep.require_instances("R2", 150)
